@@ -49,6 +49,11 @@ CHECKS = {
             "through the abstract signature; implementations' labels paired with their parameters), that the message is "
             "'[deep] ' + Formatter over the configured text with each field evaluated once as a LOG watch in the frame, and "
             "that the snapshot records that same message, one watch result per field and their variables.", "4/C16"),
+    "C17": ("schema/interface agreement (protobuf enum vs abstract methods), signature binding by origin expansion, sibling signature agreement, loop-shape and guard rules",
+            "Static decision that every metric type has its record method and is dispatched by lower-cased name, that the call "
+            "passes one metric's (name, labels, namespace or 'deep', help, unit, value) in interface order to every processor "
+            "(each isolated, processors re-obtained per metric), that the value is 1 unless float(expression) and labels are "
+            "static or evaluated text, and that without a processor the hit is rejected before limits.", "4/C17"),
     "C20": ("plugin call-site isolation: extension-point call sites from the resolved call graph, guard-inside-loop rule, loader shape",
             "Static rule over every plugin callback site found by callee resolution: guarded by a non-re-raising "
             "handler for Exception, inside the loop over plugins, in the site's function or on every in-repo call "
